@@ -279,6 +279,82 @@ func (e *Env) hostileStrings(newGroup func(*c03group) int, emit func(c03exp)) {
 			}
 		}
 	}
+	// a valid sentence containing list word #0 at position p, with that word replaced by the
+	// empty token (leading, doubled or trailing separator): a validator that reads a missing
+	// word as index 0 would accept it
+	for lang := 0; lang < ref.NLang; lang++ {
+		r := rng.New(e.Seed, "C03-empty0-"+itoa(lang))
+		for _, size := range ref.EntSizes {
+			n := size * 3 / 4
+			for p := 0; p < n; p++ {
+				for rep := 0; rep < 3; rep++ {
+					var idx []int
+					if p < n-1 {
+						first := make([]int, n-1)
+						for k := range first {
+							first[k] = r.Intn(2048)
+						}
+						first[p] = 0
+						idx = ref.Indices(entropyFromIndices(size, first, r.Intn(1<<uint(11-size/4))))
+					} else {
+						// find an entropy whose LAST word is index 0
+						for try := 0; try < 20000; try++ {
+							cand := ref.Indices(r.Bytes(size))
+							if cand[n-1] == 0 {
+								idx = cand
+								break
+							}
+						}
+						if idx == nil {
+							continue
+						}
+					}
+					w := make([]string, n)
+					for k, v := range idx {
+						w[k] = m.List[lang][v]
+					}
+					for _, sep := range []string{" ", "\u3000"} {
+						t := append([]string(nil), w...)
+						t[p] = ""
+						emit(c03exp{s: strings.Join(t, sep), lang: lang, class: "word-0-replaced-by-empty-token", group: -1})
+					}
+				}
+			}
+		}
+	}
+	// sentences of n-1, n and n+1 words in which some separators are other code points that
+	// NFKD turns into U+0020 (the raw and the normalised token counts differ)
+	spaceLike := []string{"\u00a0", "\u2000", "\u2002", "\u2003", "\u2007", "\u2009", "\u200a", "\u202f", "\u205f", "\u3000"}
+	for lang := 0; lang < ref.NLang; lang++ {
+		r := rng.New(e.Seed, "C03-mixedsep-"+itoa(lang))
+		for _, size := range ref.EntSizes {
+			for rep := 0; rep < e.pick(12, 120); rep++ {
+				w := sentence(r, lang, size, 0)
+				n := len(w)
+				var t []string
+				switch rep % 3 {
+				case 0:
+					t = w
+				case 1:
+					t = append(append([]string(nil), w...), w[r.Intn(n)])
+				case 2:
+					t = w[:n-1]
+				}
+				var sb strings.Builder
+				for k, x := range t {
+					if k > 0 {
+						if r.Intn(4) == 0 {
+							sb.WriteString(spaceLike[r.Intn(len(spaceLike))])
+						} else {
+							sb.WriteString(" ")
+						}
+					}
+					sb.WriteString(x)
+				}
+				emit(c03exp{s: sb.String(), lang: lang, class: "mixed-space-like-separators", group: -1})
+			}
+		}
+	}
 	// fixed oddities, every language
 	for lang := 0; lang < ref.NLang; lang++ {
 		for _, s := range []string{"", " ", "           ", strings.Repeat(" ", 23), "\x00", "\xff\xfe", strings.Repeat("a ", 12), strings.Repeat("abandon ", 12)} {
